@@ -162,9 +162,81 @@ def handle_event_obligations(chk, prop):
                     o.detail = 'summary written before the item was forwarded'
 
         ex.explore(run, on_end)
+    for name, o in obs.items():
+        if o.verdict == 'violated' and name in ('parsing_errors=parser-error-items', 'nothing-counted-after-run-Finished',
+                                                'no-other-counter-touched-outside-handle_scenario'):
+            confirm_event(chk, o, prop, ix, name)
     w = chk.add(Obligation('%s.handle_event.witness' % prop, 'exploration'))
     w.kind = 'witness'
     w.verdict = 'witness-ok' if total_paths[0] >= 8 * len(pendings) else 'witness-missing'
     w.detail = '%d paths over %d pending settings' % (total_paths[0], len(pendings))
     chk.assumptions.append('handle_event: inner writer futures (handle_event, write) complete after k polls, k in %s; Styles::new/apply_coloring/summary and Colored::coloring havoced (summary text is outside the property)' % (pendings,))
     return list(obs.values())
+
+
+def confirm_event(chk, o, prop, ix, name):
+    """Native replay of a one-event counterexample of Summarize::handle_event: the real Summarize is brought into the
+    counterexample's state (in progress / after run-Finished) by a prefix of events, then fed the event; the observable
+    counters (steps / scenarios / parsing errors / hook errors) before and after are compared with the specification."""
+    import os
+    from checks import replay
+    m = o.model or {}
+
+    def val(k):
+        try:
+            return int(str(m.get(k)), 0)
+        except (TypeError, ValueError):
+            return None
+    inprog = val('state') == ix.State['InProgress']
+    inv = lambda d: {v: k for k, v in d.items()}  # noqa
+    if val('res') == 1:
+        ev, is_err = 'ev parse_error', True
+    else:
+        is_err = False
+        top = inv(ix.Top).get(val('top'))
+        if top == 'Started':
+            ev = 'ev run_started'
+        elif top == 'Finished':
+            ev = 'ev run_finished'
+        elif top == 'ParsingFinished':
+            ev = 'ev parsing_finished'
+        elif top == 'Feature':
+            fe = inv(ix.Fe).get(val('fe'))
+            if fe == 'Started':
+                ev = 'ev feature_started'
+            elif fe == 'Finished':
+                ev = 'ev feature_finished'
+            elif fe == 'Rule' and inv(ix.Re).get(val('re')) == 'Started':
+                ev = 'ev rule_started'
+            else:
+                ev = 'ev started r=-'
+        else:
+            ev = None
+    if ev is None:
+        o.verdict = 'inconclusive'
+        o.detail += ' | counterexample event not scriptable natively'
+        return
+    head = ['mode summarize', 'bg 0', 'own 1', 'rule 1', 'ev run_started'] + ([] if inprog else ['ev run_finished'])
+    d = os.path.join(common.EVID, 'replay')
+    os.makedirs(d, exist_ok=True)
+    base = os.path.join(d, '%s-handle-event-%s' % (prop, name.replace('=', '-')))
+    r0, out0 = replay.run_script('\n'.join(head) + '\n', base + '.prefix.script')
+    r1, out1 = replay.run_script('\n'.join(head + [ev]) + '\n', base + '.script')
+    chk.replays += 2
+    if r0 is None or r1 is None:
+        o.verdict = 'inconclusive'
+        o.detail += ' | native replay failed: %s' % (out1 if r1 is None else out0)[-200:]
+        return
+    keys = ['sc_passed', 'sc_skipped', 'sc_failed', 'sc_retried', 'st_passed', 'st_skipped', 'st_failed', 'st_retried', 'parsing_errors', 'failed_hooks']
+    delta = {k: r1[k] - r0[k] for k in keys}
+    want = {k: 0 for k in keys}
+    if is_err and inprog:
+        want['parsing_errors'] = 1
+    bad = {k: (delta[k], want[k]) for k in keys if delta[k] != want[k]}
+    if bad:
+        chk.replay_files.append(base + '.script')
+        o.replay = base + '.script'
+        o.detail += ' | reproduced natively with the real Summarize (%s after %s): counter changes (got, specified) %s' % (ev, 'run-Started' if inprog else 'run-Finished', bad)
+    else:
+        o.verdict = 'inconclusive'
+        o.detail += ' | not reproduced natively (%s after %s changes the observable counters as specified)' % (ev, 'run-Started' if inprog else 'run-Finished')
